@@ -12,7 +12,8 @@ CONSTANTS
   Deviations = {}
   Deterministic = FALSE
   Preamble <- NoPreamble
+  Traffic = TRUE
   Emit = FALSE
 VIEW MCView
-INVARIANTS TypeOK P_C08_ExactlyOnce P_C08_Converged P_C08_BaseCount
+INVARIANTS TypeOK P_C08_ExactlyOnce P_C08_Converged P_C08_BaseCount P_C08_NoStaleAccept
 CHECK_DEADLOCK FALSE
